@@ -86,6 +86,10 @@ package keeper
 //@ ensures delay: err == nil ==> due >= blocktime() + param.UnlockDuration && (exiting ==> due == blocktime() + param.ExitingDuration)
 //@ ensures exit_drops_power: err == nil && exiting ==> st.locking.Validators[vaddr].Power == 0 && (oldstatus == 3 ==> st.locking.Validators[vaddr].Status == 3) && ((oldstatus == 1 || oldstatus == 2 || oldstatus == 4 || oldstatus == 5) ==> st.locking.Validators[vaddr].Status == 5)
 //@ ensures tombstone_absorbing: err == nil && oldstatus == 3 ==> st.locking.Validators[vaddr].Status == 3 && st.locking.Validators[vaddr].Power == 0
+//@ ensures [C13] ranked_after: err == nil && (st.locking.Validators[vaddr].Status == 1 || st.locking.Validators[vaddr].Status == 2) && st.locking.Validators[vaddr].Power > 0 ==> has(st.locking.PowerRanking, pair(st.locking.Validators[vaddr].Power, vaddr))
+//@ ensures [C13] stale_rank_removed: err == nil ==> !has(st.locking.PowerRanking, pair(old(st.locking.Validators[req.Validator].Power), vaddr)) || (old(st.locking.Validators[req.Validator].Power) == st.locking.Validators[vaddr].Power && (st.locking.Validators[vaddr].Status == 1 || st.locking.Validators[vaddr].Status == 2))
+//@ ensures [C14] jailed_index_untouched: err == nil && oldstatus == 4 && !exiting ==> unchanged(st.locking.Locking)
+//@ ensures [C13] index_follows_holding: err == nil && !exiting && (oldstatus == 1 || oldstatus == 2) ==> has(st.locking.Locking, pair(denom, vaddr)) == (held - paid > 0) && (held - paid > 0 ==> st.locking.Locking[pair(denom, vaddr)] == held - paid)
 //@ ensures others_untouched: err == nil ==> forallb(a, a != vaddr ==> has(st.locking.Validators, a) == old(has(st.locking.Validators, a)) && st.locking.Validators[a] == old(st.locking.Validators[a]))
 //@ loop 0 invariant true
 //@ modifies st.locking.Validators, st.locking.PowerRanking, st.locking.Locking, st.locking.UnlockQueue
